@@ -227,6 +227,11 @@ class FunctionDecoratorManager(DecoratorManager):
         def on_func_var_deleted():
             if self.status is DecoratorManagerStatus.RUNNING:
                 self.hass.async_create_task(self.stop())
+            elif self.status is DecoratorManagerStatus.VALIDATED:
+                # gone before the delayed start (eg, redefined while the file is loading): never start it
+                self.update_status(DecoratorManagerStatus.STOPPED)
+                self.eval_func.global_ctx.dms.discard(self)
+                self.eval_func.global_ctx.dms_delay_start.discard(self)
 
         weakref.finalize(eval_func_var, on_func_var_deleted)
 
